@@ -155,6 +155,10 @@ def rendered_shape(start, childiter, maxlevel):
 OTHER_BREAKS = ["\r", "\x0b", "\x0c", "\x1c", "\x1d", "\x1e", "\x85", "\u2028", "\u2029", "\r\n"]
 
 
+class _Decoy:
+    size = "decoy: the attribute 'size' of the attribute 'meta', not the attribute 'meta.size'"
+
+
 def text_lines(value, universal=False):
     """Lines of a value. The statement does not say which characters end a line: '\\n' only (universal=False), or every
     line boundary str.splitlines knows (universal=True). A rendering must follow ONE of the two for all its values."""
@@ -293,6 +297,11 @@ def _rows_once(case, acc, tree, labels, cls):
             node.text = val if cls is None or isinstance(val, str) else str(val)
             if cls is None:
                 node.label = val
+            if case.get("dotted"):
+                # an attribute whose NAME contains dots (keys of imported documents: 'meta.size', 'v1.0'), next to a decoy
+                # that a dotted-path lookup would find instead
+                setattr(node, "meta.size", node.label if cls is None else node.text)
+                node.meta = _Decoy()
         texts = []
         for universal in (False, True):
             lines = []
@@ -316,7 +325,7 @@ def _rows_once(case, acc, tree, labels, cls):
         elif sel == "callable":
             got_text = rt.by_attr(lambda n: realvals.get(id(n), ""))
         else:
-            got_text = rt.by_attr("label" if cls is None else "text")
+            got_text = rt.by_attr("meta.size" if case.get("dotted") else ("label" if cls is None else "text"))
         if got_text != expected_text and got_text != texts[1]:
             raise Violation("text-" + sel, "expected %r%s got %r" % (expected_text, "" if texts[1] == expected_text else " (or, with every str.splitlines boundary ending a line, %r)" % texts[1], got_text))
         acc.tag("values_with_other_line_boundaries", texts[0] != texts[1])
@@ -473,6 +482,7 @@ def random_cases(draw):
         else:
             case["values"] = [draw(VALUE) for _ in range(size)]
             case["selector"] = draw(st.sampled_from(["attr", "callable"]))
+        case["dotted"] = draw(st.booleans())
     return case
 
 
@@ -505,7 +515,7 @@ def _linebreak_cases():
                     k += 1
                     vals = [["r1" + brk + "r2"], ["a1" + brk + "a2", "a3"], ["plain", "multi"], ["x"]]
                     values = [{"t": "str", "v": vals[(i + pattern) % 4]} for i in range(size)]
-                    yield {"kind": "rows", "shape": shape, "start": 0, "style": ["cont", "ascii", "round", "double"][k % 4], "childiter": "list", "maxlevel": None, "cls": "Node", "values": values, "selector": selector}
+                    yield {"kind": "rows", "shape": shape, "start": 0, "style": ["cont", "ascii", "round", "double"][k % 4], "childiter": "list", "maxlevel": None, "cls": "Node", "values": values, "selector": selector, "dotted": k % 2 == 0}
 
 
 def _wide_cases(widths):
